@@ -51,6 +51,29 @@ func treeWorkload(c *Ctx, nMut, nGen int, f func(entry, input string)) {
 			}
 		}
 	}
+	// wide inputs (one list with n elements) and very long tokens: shapes that limits, pools and caches are sensitive to
+	widths := []int{300, 3000, 12000, 40000}
+	if c.Thorough() {
+		widths = append(widths, 120000)
+	}
+	for _, fam := range gen.WideFamilies {
+		for _, n := range widths {
+			if c.Mine(idx) {
+				f(fam.Entry, fam.Make(n))
+				c.Count("wide_inputs", 1)
+			}
+			idx++
+		}
+	}
+	for _, ll := range gen.LongLiterals() {
+		if c.Mine(idx) {
+			f(ll.Entry, ll.Text)
+			// a short one right after a long one (pooled buffers)
+			f("expr", "'short'")
+			c.Count("long_token_inputs", 1)
+		}
+		idx++
+	}
 	if ExtraSentences != nil && nGen > 0 {
 		ExtraSentences(c, nGen, f)
 	}
